@@ -652,6 +652,12 @@ func (rw *rwalker) term(e ast.Expr) (*rterm, bool) {
 		}
 		return tVar(rw.nameOf(x)), true
 	case *ast.IndexExpr:
+		// an element of a byte slice / array is a value in 0..255
+		if t := rw.typeOf(x.X); t.ok() && !rw.w.isMap(t) {
+			if et := rw.w.elemType(t); et.ok() && rw.w.isByteType(et) {
+				return &rterm{k: "Byte", a: tVar(rw.nameOf(x))}, true
+			}
+		}
 		return tVar(rw.nameOf(x)), true
 	case *ast.StarExpr:
 		return rw.term(x.X)
